@@ -653,6 +653,32 @@ Fixpoint exec_list (l : list stmt) (env : list (string * val)) : outcome :=
   | s :: t => match exec s env with Normal env' => exec_list t env' | o => o end
   end.
 
+(** the statement lists inside [exec] run as [exec_list] *)
+Lemma run_list_exec_list l : forall env,
+  (fix run_list (l : list stmt) (env : list (string * val)) : outcome :=
+     match l with
+     | [] => Normal env
+     | s :: t => match exec s env with Normal env' => run_list t env' | o => o end
+     end) l env = exec_list l env.
+Proof.
+  induction l as [|a t IH]; intros env; [reflexivity|].
+  cbn [exec_list]. destruct (exec a env); reflexivity.
+Qed.
+
+Lemma exec_SIf c th el env :
+  exec (SIf c th el) env =
+  match eval env c with
+  | Some (Some v) => match truthy v with
+                     | Some true => exec_list th env
+                     | Some false => exec_list el env
+                     | None => Stuck end
+  | Some None => Raised
+  | None => Stuck
+  end.
+Proof.
+  reflexivity.
+Qed.
+
 (** calling a function: falling off the end returns None *)
 Definition run (f : func) (args : list val) : outcome :=
   match bind_targets (f_params f) args [] with
